@@ -25,7 +25,23 @@ fn analyse(text: &str) -> Value {
         Err(e) => return json!({"parse": "error", "msg": e.to_string()}),
     };
     let mut items = Vec::new();
-    for it in &file.items {
+    // flatten inline modules (rustc's -Zunpretty=expanded output nests the cases in modules)
+    let mut flat: Vec<(String, &syn::Item)> = Vec::new();
+    fn walk<'a>(prefix: &str, its: &'a [syn::Item], out: &mut Vec<(String, &'a syn::Item)>) {
+        for it in its {
+            if let syn::Item::Mod(m) = it {
+                if let Some((_, inner)) = &m.content {
+                    let p = if prefix.is_empty() { m.ident.to_string() } else { format!("{}::{}", prefix, m.ident) };
+                    walk(&p, inner, out);
+                    continue;
+                }
+            }
+            out.push((prefix.to_string(), it));
+        }
+    }
+    walk("", &file.items, &mut flat);
+    for (modpath, it) in flat.iter() {
+        let modpath = modpath.clone();
         match it {
             syn::Item::Impl(im) => {
                 let (trait_path, trait_last, trait_args, trait_lead_colon, trait_segs) = match &im.trait_ {
@@ -74,7 +90,7 @@ fn analyse(text: &str) -> Value {
                 let mut idc = IdentCollector(vec![]);
                 idc.visit_item_impl(im);
                 items.push(json!({
-                    "kind": "impl",
+                    "kind": "impl", "mod": modpath,
                     "attrs": im.attrs.iter().map(attr_json).collect::<Vec<_>>(),
                     "params": params, "param_names": param_names,
                     "where": im.generics.where_clause.as_ref().map(|w| ts(w)),
@@ -88,7 +104,7 @@ fn analyse(text: &str) -> Value {
                     "text": ts(im),
                 }));
             }
-            other => items.push(json!({"kind": "other", "text": ts(other)})),
+            other => items.push(json!({"kind": "other", "mod": modpath, "text": ts(*other).chars().take(200).collect::<String>()})),
         }
     }
     json!({"parse": "ok", "items": items, "file_attrs": file.attrs.len()})
